@@ -261,7 +261,9 @@ def whole_cart(seed, fmt):
         rows = [pix[y * 640:(y + 1) * 640] for y in range(205)]
         # reference writes, picotool reads
         kind_area = bytearray(code)  # raw text, NUL padded by write_p8png
-        png_bytes = reffmt.write_p8png(rows, mem, kind_area, version)
+        png_kw, flavour = reffmt.png_flavour(seed[-8:-4])
+        case = dict(case, png_flavour=flavour)
+        png_bytes = reffmt.write_p8png(rows, mem, kind_area, version, png_kw=png_kw)
         try:
             g2 = P8PNGFormatter.from_file(io.BytesIO(png_bytes))
         except Exception as e:
@@ -281,7 +283,7 @@ def whole_cart(seed, fmt):
         with tempfile.TemporaryDirectory(prefix='c16_') as td:
             lab = os.path.join(td, 'label.png')
             with open(lab, 'wb') as fh:
-                fh.write(refpng.encode(160, 205, rows))
+                fh.write(refpng.encode(160, 205, rows, **png_kw))
             buf = io.BytesIO()
             try:
                 P8PNGFormatter.to_file(g, buf, label_fname=lab)
@@ -378,6 +380,8 @@ def part_carts(ctx):
     def body(v):
         seed, fmt = v
         modes = whole_cart(seed, fmt) if fmt in ('p8', 'png') else whole_cart_both(seed, fmt)
+        if fmt == 'png':
+            ctx.stats.count('png_flavour_' + ('plain' if reffmt.png_flavour(seed[-8:-4])[1] == 'plain' else 'other'))
         ctx.stats.case(seed + fmt.encode(), sum(1 for m in modes if m in ('random', 'ramp')) >= 1,
                        {'cart_seed': show(seed, 40), 'fmt': fmt, 'region_modes': modes}, ['cart_' + fmt])
     ctx.hyp('carts', st.tuples(st.binary(min_size=40, max_size=40), st.sampled_from(['p8', 'png', 'png_then_p8', 'p8_then_png'])), body,
